@@ -1314,9 +1314,11 @@ class Reaction(Object):
                 # Reset them with add_metabolites
                 # metabolites that were not part of the reaction before are
                 # reset to a coefficient of zero, i.e., removed again
+                # looked up by identifier, the key may be another object than the
+                # metabolite of the model
+                old_by_id = {met.id: coeff for met, coeff in old_coefficients.items()}
                 mets_to_reset = {
-                    key: old_coefficients.get(model.metabolites.get_by_any(key)[0], 0)
-                    for key in metabolites_to_add.keys()
+                    key: old_by_id.get(str(key), 0) for key in metabolites_to_add.keys()
                 }
 
                 context(
